@@ -106,6 +106,7 @@ def cases(tier, seed):
     # the numerical lens wrapper with particular numbers of locations per
     # call (1, 2, a block boundary +- 1)
     out.append({"id": "lens-point-counts", "kind": "lenscounts"})
+    out.append({"id": "subset-forms", "kind": "subsetforms"})
     # a detector so large / far that part of it is beyond kr = 1000: crops
     # and point lists that hold only distant pixels
     out.append({"id": "grid-far:mie", "kind": "gridfar"})
@@ -756,9 +757,72 @@ def _run_history(case, ck):
     return digest(*outs)
 
 
+def _run_subsetforms(case, ck):
+    """subsets of a volume (several z planes), of a subset, and of a list of
+    points: distinct locations drawn from ALL of them, values and
+    coordinates kept, selecting commutes with the calculation"""
+    import xarray as xr
+    import holopy as hp
+    from holopy.core.metadata import make_subset_data, flat
+    scat, theory = _theory("mie")
+    fps = []
+    a = hp.detector_grid((4, 5), 0.3)
+    vol = xr.concat([a, a.assign_coords(z=a.z + 0.5),
+                     a.assign_coords(z=a.z + 1.0)], dim="z")
+    pts = hp.detector_points(x=np.arange(12) * 0.3, y=np.arange(12) * 0.2 - 1,
+                             z=0.0)
+    first = make_subset_data(hp.detector_grid((6, 7), 0.3), pixels=30, seed=5)
+    for name, det, n in (("volume of 3 planes", vol, 60),
+                         ("subset of a subset", first, 30),
+                         ("list of points", pts, 12)):
+        full = _holo(det, scat, _theory("mie")[1])
+        ck.trans += 1
+        ff = flat(full) if "flat" not in full.dims and \
+            "point" not in full.dims else full
+        dim = "point" if "point" in ff.dims else "flat"
+        seen = set()
+        for k, seed in ((n, 1), (n // 2, 2), (n // 2, 3), (5, 4), (5, 5),
+                        (1, 6)):
+            try:
+                sub = make_subset_data(full, pixels=k, seed=seed)
+                again = make_subset_data(full, pixels=k, seed=seed)
+                ck.trans += 2
+            except Exception as e:
+                ck.true("subset-accepts", False, "make_subset_data(%s, "
+                        "pixels=%d) raised %s: %s" %
+                        (name, k, type(e).__name__, str(e)[:80]))
+                continue
+            sdim = "point" if "point" in sub.dims else "flat"
+            locs = list(zip(sub.x.values.tolist(), sub.y.values.tolist(),
+                            np.broadcast_to(sub.z.values, sub.x.shape)
+                            .tolist()))
+            ck.true("subset-distinct", len(set(locs)) == k == sub.sizes[sdim],
+                    "make_subset_data(%s, pixels=%d): %d locations, %d "
+                    "distinct" % (name, k, sub.sizes[sdim], len(set(locs))))
+            ck.true("subset-reproducible", bool(np.array_equal(
+                sub.values, again.values)), "%s: the same seed gives another "
+                "subset" % name)
+            allv = {(x, y, float(z)): v for x, y, z, v in zip(
+                ff.x.values.tolist(), ff.y.values.tolist(),
+                np.broadcast_to(ff.z.values, ff.x.shape).tolist(),
+                np.asarray(ff.values).ravel().tolist())}
+            bad = [l for l, v in zip(locs, np.asarray(sub.values).ravel())
+                   if allv.get((l[0], l[1], float(l[2]))) != v]
+            ck.true("subset-values", not bad, "%s, pixels=%d: %d selected "
+                    "values are not the values at their locations" %
+                    (name, k, len(bad)))
+            seen |= set(locs)
+        ck.true("subset-covers", len(seen) == n, "%s: subsets (one of them "
+                "of all %d locations) only ever reached %d of them" %
+                (name, n, len(seen)))
+        fps.append(fp_values(np.asarray(full.values)))
+    return digest(*fps)
+
+
 def run_case(case):
     ck = Checker()
     fp = {"grid": _run_grid, "scripted": _run_scripted,
+          "subsetforms": _run_subsetforms,
           "mixedz": _run_mixedz, "biglarge": _run_biglarge,
           "gridfar": _run_gridfar, "lenscounts": _run_lenscounts,
           "coordforms": _run_coordforms,
